@@ -11,21 +11,22 @@ ENGINES = [dict(name='tlssw', c_sources=['tlssw_h.c'], extract='Extract/Extract_
                 glue=('glue.ml', 'glue_z.ml'), accepts=lambda c: c.startswith('c8 '))]
 SHRINK = False       # the case has counted fields; the generator already produces small cases
 RULE = ('case = (route has its own client certificate?, 1..3 MX each with: named?, tlshosts file present / loadable, TLSA records with the '
-        'answer of SSL_dane_tlsa_add, clear-text server script as segments, "the next segment is already there when the client polls", '
+        'answer of SSL_dane_tlsa_add, clear-text server script as segments, '
         'handshake result, clear-text segments after a failed handshake, verification result, in-TLS script as segments); scripts are composed '
         'from a greeting {220, multi-line, 554, codes differing, bare LF, closed, over-long}, an EHLO answer {with/without STARTTLS, other '
         'extensions, syntax errors, 5xx then HELO 250/4xx/5xx}, an answer to STARTTLS {220, multi-line 220, 454, 220-/454, cut off, junk} with '
         'injected clear text {complete reply lines, one byte, an unterminated line, a forged EHLO answer plus 250 for MAIL} in the same or a '
-        'later segment (arrived / not yet arrived), and an in-TLS script {EHLO answer, error, HELO fallback, closed at once, over-long, junk}; '
+        'later segment, and an in-TLS script {EHLO answer, error, HELO fallback, closed at once, over-long, junk}; '
         'streams are cut into segments at random; non-trivial = a TLS handshake was attempted or a TLS/clear-text requirement decided the '
         'outcome; distinct by case text')
 TRUSTED_BASE = [
     'Coq 8.16.1 kernel (coqc; coqchk in thorough); vm_compute only for the refutation witness and the non-vacuity example',
     'axioms: none (Print Assumptions: Closed under the global context)',
     'translator tools/translators/starttls.py: regexes over qremote/{greeting,starttlsr,conn_mx,qremote,reply,smtproutes}.c and lib/netio.c produce '
-    'coq/Gen/GenStarttls.v: extension table and STARTTLS bit, expected reply codes, usable TLSA usages, the verification condition, whether tls_init '
-    'looks for pending clear text (data_pending) before the handshake, which errors drop the socket without QUIT and whether the TLS session is '
-    'dropped with it, whether quitmsg() forgets the route settings, whether a tlshosts file demands STARTTLS, that TLSA is asked for the list head, '
+    'coq/Gen/GenStarttls.v: extension table and STARTTLS bit, expected reply codes, usable TLSA usages, the verification condition, whether '
+    'net_read() drops input buffered under another TLS state (drop_stale_input), which errors drop the socket without QUIT and whether the TLS '
+    'session is dropped with it, whether quitmsg() forgets the route settings, whether main() refuses a tlshosts host outside TLS, that TLSA is '
+    'asked for the list head, '
     'command texts, first words of the reports; structural regexes fail loudly when the surrounding code changes shape',
     'hand-written model coq/Model/TlsSwitch.v (reusing the byte-level line reader model coq/Model/NetRead.v of C05) tied to the C by the '
     'correspondence run: byte-identical event list (connections, every write with its channel, every net_read result with channel and unconsumed '
@@ -41,8 +42,7 @@ ASSUMPTIONS = [
     'OpenSSL is an oracle: the handshake result, the verification result (SSL_get_verify_result; note it is X509_V_OK when the peer sent no '
     'certificate at all), what SSL_read delivers and that it delivers only authenticated bytes of the session, SSL_dane_tlsa_add results, '
     'loading of the pinned file; lib/ssl_timeoutio.c itself is not modelled',
-    'clear-text bytes that have not been read when the handshake starts are consumed by the handshake (SSL_connect reads them as records); '
-    'the timing question "had it already arrived when data_pending() polled" is one oracle bit per connection',
+    'clear-text bytes that have not been read from the socket when the handshake starts are consumed by the handshake (SSL_connect reads them as records)',
     'one address per MX entry; connect() succeeds; DNS (dnstlsa) answers from the case; no control/tlsclientciphers; SSL_CTX_new/SSL_new/'
     'SSL_dane_enable/SSL_set_fd succeed; write() to socket and status pipe succeeds; no poll timeout and no read() error other than the closed '
     'connection on the clear-text socket',
@@ -54,7 +54,7 @@ ASSUMPTIONS = [
 def hx(b):
     return b.hex() if b else '-'
 
-NAMED, PINFILE, PINLOAD, EARLY = 1, 2, 4, 8
+NAMED, PINFILE, PINLOAD = 1, 2, 4
 
 def conn(flags=NAMED, tlsa=(), hs=0, verify=0, pre=(), post=(), tls=()):
     t = b''.join(bytes([u, r + 1]) for u, r in tlsa)
@@ -194,7 +194,6 @@ def gen_conn(rng, want_tls, tlsa):
     if rng.random() < 0.85: flags |= NAMED
     if rng.random() < 0.35: flags |= PINFILE
     if rng.random() < 0.9: flags |= PINLOAD
-    if rng.random() < 0.5: flags |= EARLY
     banner = BANNERS[0] if rng.random() < 0.88 else rng.choice(BANNERS)
     ehlo = ehlo_variants(rng, want_tls)
     pre_stream = banner + ehlo
@@ -208,7 +207,7 @@ def gen_conn(rng, want_tls, tlsa):
             pre += cut(rng, rep, rng.choice([0, 0, 1, 2]))
         elif inj < 0.78:           # injected text in the same segment as the reply
             pre += [rep + rng.choice(INJECT)]
-        elif inj < 0.93:           # in a later segment (arrived or not: EARLY)
+        elif inj < 0.93:           # in a later segment (consumed by the handshake oracle)
             pre += [rep, rng.choice(INJECT)]
         else:                     # cut inside the reply, injected text behind
             k = rng.randrange(1, len(rep)) if len(rep) > 1 else 0
@@ -240,8 +239,8 @@ def gen_cases(engine, rng, tier):
     for pad in ([990, 994, 995, 996, 997, 998, 999, 1000, 1001] if tier == 'quick' else range(900, 1010)):
         rep = lines(b'220-' + b'p' * (pad - 6), b'220 go')
         for inj in (b'', lines(b'250-inj', b'250 PIPELINING'), b'2'):
-            for early in (0, EARLY):
-                out.append(mkcase(False, [conn(NAMED | early, [], 0, 0, cut(rng, BANNERS[0] + ehlo_reply(rng, True), 1) + [rep + inj], [],
+            for pin in (0, PINFILE | PINLOAD):
+                out.append(mkcase(False, [conn(NAMED | pin, [], 0, 0, cut(rng, BANNERS[0] + ehlo_reply(rng, True), 1) + [rep + inj], [],
                                                cut(rng, ehlo_reply(rng, False) + lines(b'221 bye')))]))
     return out
 
@@ -279,23 +278,24 @@ def distribution(results):
     for r in results:
         for c in classes(r['case']):
             top['classes'][c] = top['classes'].get(c, 0) + 1
-    # clear text present when the client decides about the handshake
-    top['pending_detected'] = sum(1 for r in results if 'Wc5354415254544c530d0a' in r['c'] and not any(x.startswith('H') for x in _toks(r['c'])))
+    # clear text buffered when the handshake starts (dropped by net_read afterwards)
+    top['handshake_with_buffered_clear_text'] = sum(1 for r in results if any(x.startswith('H') and not x.startswith('H0:') for x in _toks(r['c'])))
     return top
 
 LEVEL_TEXT = ('Machine-checked Coq theorems over an executable model of Qremote\'s connection set-up (connect_mx over all MX of the case, both '
-              'greeting() calls with the EHLO extension parser, tls_init with its reply loop, the pending-data check, handshake and verification '
-              'oracles, quitmsg/quitmsg_if_net/net_conn_shutdown, the byte-level net_read over the buffer shared by clear text and TLS). For every '
-              'case (all server scripts, segmentations, oracle answers, any number of MX): the model run always ends in exit() (no fuel exhaustion); '
-              'a handshake starts with an empty line buffer, at most once per connection; after a successful one everything is read and written '
-              'through TLS, each line used is cut at its exact position from what the TLS session delivered, and every extension bit in smtpext when '
-              'the transmission starts was offered by a line received inside TLS; after a failed handshake only QUIT is written and no transmission '
-              'starts; a route with its own client certificate never transmits in clear and always loads that certificate; a host with a '
-              'control/tlshosts certificate gets the message only inside TLS after X509_V_OK. Outside the decidable class tlsa_wrong_host (known '
-              'finding F-C18-3, refutation proved) the same holds for hosts with usable TLSA records of their own, i.e. the whole property as '
-              'checked by spec_ok_C18. The theorems are about the C with four proposed fixes applied; which code exists is regenerated from the C '
-              'on every run (with a fix missing the lemma fix_... fails and the corpus cases violate the specification on the C). The model is tied '
-              'to the C by a differential run under ASan with OpenSSL replaced by oracles at the same boundary the model draws.')
+              'greeting() calls with the EHLO extension parser, tls_init with its reply loop, handshake and verification oracles, '
+              'quitmsg/quitmsg_if_net/net_conn_shutdown, main() around connect_mx, the byte-level net_read with drop_stale_input over the buffer '
+              'shared by clear text and TLS). For every case (all server scripts, segmentations, oracle answers, any number of MX): the model run '
+              'always ends in exit() (no fuel exhaustion); a handshake starts at most once per connection; after a successful one everything is '
+              'read and written through TLS, each line used is cut at its exact position from what the TLS session delivered (whatever clear text '
+              'was buffered at the switch is never used), and every extension bit in smtpext when the transmission starts was offered by a line '
+              'received inside TLS; after a failed handshake only QUIT is written and no transmission starts; a route with its own client '
+              'certificate never transmits in clear and always loads that certificate; a host with a control/tlshosts certificate gets the '
+              'message only inside TLS after X509_V_OK. Outside the decidable class tlsa_wrong_host (known finding F-C18-3, refutation proved) '
+              'the same holds for hosts with usable TLSA records of their own, i.e. the whole property as checked by spec_ok_C18. The theorems '
+              'are about the C with four proposed fixes applied; which code exists is regenerated from the C on every run (with a fix missing the '
+              'lemma fix_... fails and the corpus cases violate the specification on the C). The model is tied to the C by a differential run '
+              'under ASan with OpenSSL replaced by oracles at the same boundary the model draws.')
 LEVEL_NOTE = ('Partial for OpenSSL: handshake, certificate verification, record layer are oracles (see assumptions); lib/ssl_timeoutio.c is not '
               'modelled. Trusted: Coq kernel, translator regexes, extraction, harness, generator quality of the correspondence run. Known finding '
               'F-C18-3 (TLSA records of the first MX applied to every MX) is excluded by hypothesis and reported as KNOWN-FINDING.')
